@@ -113,7 +113,8 @@ pub fn shapes() -> Vec<(&'static str, String)> {
         }
     }
     // case: key x clause sequences
-    let keys = ["1", "2", "3", "'a", "(- 3 1)", "(car '(b))"];
+    // (the last two keys carry a probe: the key is evaluated exactly once, whichever clause matches)
+    let keys = ["1", "2", "3", "'a", "(- 3 1)", "(car '(b))", "(tick 90 2)", "(tick 91 'a)", "(tick 92 9)"];
     let cnon = |i: usize| -> Vec<String> {
         vec![
             format!("((1 4) E{0})", i),
